@@ -43,7 +43,7 @@ def run(tier, seed):
                  generator=maxdrive.gen, observe=maxdrive.observe)
     return opscheck.run_property(
         "C01", tier, seed, design=opscheck.design_ops("C01", None), clauses_for=clauses_for,
-        extra_configs=opsdrive.periodic_systematic_configs("periodic") + opsdrive.large_configs(closed=True), n_quick=18, n_thorough=150,
+        extra_configs=opsdrive.periodic_systematic_configs("periodic") + opsdrive.large_configs(closed=True) + opsdrive.systematic_configs(closed=True, classes=[c for c in opsdrive.drive.CLASSES if c != "SphericalGrid3D"]), n_quick=18, n_thorough=150,
         gen_kw=[{"closed": True}, {"closed": True, "nmax": 2}, {"closed": "periodic"}, {"allow_periodic": False}],
         parts=[steps],
         sig_extra=lambda cl, e, v: ({"periodic": bool(e["obs"].get("periodic_any"))} if cl.startswith("C01_ClosedStep") else {}),
